@@ -200,15 +200,19 @@ def callApi (s : MState) (now : Int) (method : String) (gs : List Grp) (choice :
   | "ZInterStore", [d, ks, ws, a] => do pure (zstore false s now (← gB d) (← gBs ks) (← gFs ws) (← gB a))
   | _, _ => none
 
-/-- logical dump of the keyspace: name@deadline{value}; cold values are read from the backend -/
-def dumpState (s : MState) : String :=
-  let parts := s.index.map fun (k, m) =>
+/-- dump of the keyspace: name@deadline{value}; cold values are read from the backend.
+    `live = some now`: only records whose deadline has not passed (the logical keyspace). -/
+def dumpState (s : MState) (live : Option Int := none) : String :=
+  let ents : List (Bytes × Meta) := match live with
+    | some now => s.index.filter fun (km : Bytes × Meta) => !km.2.expired now
+    | none => s.index
+  let parts := ents.map fun (k, m) =>
     let v := match m.value with
       | some v => dumpVal v
       | none => match Store.loadValue s k m with
         | some (v, _) => dumpVal v
         | none => "unreadable"
     s!"{showBytes k}@{m.exp}" ++ "{" ++ v ++ "}"
-  compact ("dump " ++ joinWith " " parts)
+  compact ((if live.isSome then "ldump " else "dump ") ++ joinWith " " parts)
 
 end NodisVerif.Driver
